@@ -2,8 +2,11 @@ package catalog
 
 import (
 	"encoding/json"
+	stdErrors "errors"
 	"fmt"
+	"regexp/syntax"
 	"sync"
+	"unicode"
 
 	schema "github.com/jsightapi/jsight-schema-core"
 	"github.com/jsightapi/jsight-schema-core/bytes"
@@ -90,8 +93,60 @@ func ProbeRegexExample(regexStr bytes.Bytes) (err error) {
 			err = fmt.Errorf("an example cannot be generated for the regular expression (%v)", r)
 		}
 	}()
-	_, _ = regex.New("", regexStr).Example()
+	rs := regex.New("", regexStr)
+	_, _ = rs.Example()
+
+	// The first example may have gone another way through the expression than
+	// a later one: look at every part of it.
+	p, err := rs.Pattern()
+	if err != nil {
+		return nil
+	}
+	re, err := syntax.Parse(p, syntax.Perl)
+	if err != nil {
+		return nil
+	}
+	if hasClassWithoutExample(re) {
+		return stdErrors.New("an example cannot be generated for the regular expression (a character class of it matches nothing that can be written)")
+	}
 	return nil
+}
+
+// regexExampleChars are the characters the generator of examples picks from
+// for a character class that is open to the end of Unicode.
+const regexExampleChars = "0123456789abcdefghijklmnopqrstuvwxyzABCDEFGHIJKLMNOPQRSTUVWXYZ!\"#$%&'()*+,-./:;<=>?@[\\]^_`{|}~ \t\n\r"
+
+// hasClassWithoutExample tells if the expression has a character class for which
+// the generator of examples panics: an empty one, or one that reaches the end of
+// Unicode and holds none of the characters the generator writes.
+func hasClassWithoutExample(re *syntax.Regexp) bool {
+	if re.Op == syntax.OpCharClass {
+		n, open := 0, false
+		for i := 0; i+1 < len(re.Rune); i += 2 {
+			n += int(re.Rune[i+1]-re.Rune[i]) + 1
+			if re.Rune[i+1] == unicode.MaxRune {
+				open = true
+				break
+			}
+		}
+		if !open {
+			return n == 0
+		}
+		for _, c := range regexExampleChars {
+			for i := 0; i+1 < len(re.Rune); i += 2 {
+				if c >= re.Rune[i] && c <= re.Rune[i+1] {
+					return false
+				}
+			}
+		}
+		return true
+	}
+	for _, sub := range re.Sub {
+		if hasClassWithoutExample(sub) {
+			return true
+		}
+	}
+	return false
 }
 
 // AddUserType gives the schema a user type. For a regex type the library takes
